@@ -81,7 +81,8 @@ fn inform_parent_done(fds: &[c_int]) {
 
 /// Wait for the child process to signal it is done, by sending a byte on the pipe. In the case the
 /// child crashes, or exits via some path that doesn't send a byte, then the pipe will be closed and
-/// we'll then wait for the subprocess to exit, returning its exit code.
+/// we'll then wait for the subprocess to exit, returning its exit code, or a non-zero code if it was
+/// terminated by a signal.
 fn wait_for_child_done(fds: &[c_int], child_pid: pid_t) -> i32 {
     unsafe {
         // close our sending end of the pipe
@@ -101,7 +102,15 @@ fn wait_for_child_done(fds: &[c_int], child_pid: pid_t) -> i32 {
                 // Child closed pipe without sending a byte - get the process exit_status
                 let mut status: libc::c_int = -1i32;
                 libc::waitpid(child_pid, &mut status, 0);
-                libc::WEXITSTATUS(status)
+                if libc::WIFEXITED(status) {
+                    libc::WEXITSTATUS(status)
+                } else if libc::WIFSIGNALED(status) {
+                    // The child was killed by a signal. Follow the shell convention so that our
+                    // caller sees a failure rather than the 0 that WEXITSTATUS would give.
+                    128 + libc::WTERMSIG(status)
+                } else {
+                    1
+                }
             }
         }
     }
